@@ -252,4 +252,29 @@ RenderOK(h, out) ==
         /\ o.sess = h.ev[o.tag].sess
         /\ o.wf
 
+(***************************************************************************)
+(* C03: what a concurrent execution is compared with.  The observation of  *)
+(* an execution is, per session, the emitted events with their identities  *)
+(* in order, and whether a login and the LOGIN record it matches are left  *)
+(* waiting for each other.  SeqObsOf(prog) is the set of observations of   *)
+(* all sequential orders of the calls of prog (a sequence of threads, each *)
+(* a sequence of calls) that respect per-thread order.                     *)
+(***************************************************************************)
+PerSession(o) ==
+    [s \in Sessions |-> LET sel == SelectSeq(o, LAMBDA x : x.sess = s)
+                        IN [i \in 1..Len(sel) |-> <<sel[i].tag, sel[i].id>>]]
+
+MutualWait(s0) == \E s \in DOMAIN s0.sess : ~s0.sess[s].bound /\ s0.sess[s].pid \in DOMAIN s0.wait
+
+Obs(s0, o) == [per |-> PerSession(o), mw |-> MutualWait(s0)]
+
+RECURSIVE SeqOutcomes(_, _, _, _)
+SeqOutcomes(prog, s0, o, ix) ==
+    LET ready == {t \in 1..Len(prog) : ix[t] <= Len(prog[t])} IN
+    IF ready = {} THEN {[obs |-> Obs(s0, o), st |-> Proj(s0)]}
+    ELSE UNION { UNION { SeqOutcomes(prog, r.st, o \o r.outs, [ix EXCEPT ![t] = @ + 1])
+                         : r \in SeqApply(s0, prog[t][ix[t]]) } : t \in ready }
+
+SeqResultsOf(prog) == SeqOutcomes(prog, InitSt, <<>>, [t \in 1..Len(prog) |-> 1])
+SeqObsOf(prog) == {x.obs : x \in SeqResultsOf(prog)}
 =============================================================================
